@@ -244,8 +244,14 @@ func parseTOCEStargz(r io.Reader) (toc *JTOC, tocDgst digest.Digest, err error) 
 	}
 	dgstr := digest.Canonical.Digester()
 	toc = new(JTOC)
-	if err := json.NewDecoder(io.TeeReader(tr, dgstr.Hash())).Decode(&toc); err != nil {
+	teeR := io.TeeReader(tr, dgstr.Hash())
+	if err := json.NewDecoder(teeR).Decode(&toc); err != nil {
 		return nil, "", fmt.Errorf("error decoding TOC JSON: %v", err)
+	}
+	// The TOC digest covers the whole TOC JSON file. The decoder stops reading at the end of
+	// the JSON value, so hash what follows it (e.g. trailing white space) as well.
+	if _, err := io.Copy(io.Discard, teeR); err != nil {
+		return nil, "", fmt.Errorf("error reading TOC JSON: %v", err)
 	}
 	if err := tr.Close(); err != nil {
 		return nil, "", err
